@@ -69,3 +69,10 @@ Proof.
   inversion H as [|? ? Hn H']; subst. destruct permits as [|p]; [now apply IH|].
   constructor; [|now apply IH]. intros Hin. apply Hn. eapply gossip_offers_incl. exact Hin.
 Qed.
+
+(* with a permit for every target the whole batch goes to every target, in order *)
+Lemma gossip_offers_all final : forall permits, (length final <= permits)%nat -> gossip_offers final permits = final.
+Proof.
+  induction final as [|n rest IH]; intros permits H; cbn [gossip_offers]; [reflexivity|].
+  cbn [length] in H. destruct permits as [|p]; [lia|]. f_equal. apply IH. lia.
+Qed.
